@@ -221,3 +221,41 @@ func TestTranslatorLocalsSelfTest(t *testing.T) {
 		t.Errorf("Nested: nothing of the invocation itself is shared: %+v", e)
 	}
 }
+
+func TestTranslatorLocalsIterations(t *testing.T) {
+	r0, err := analysePackage("testdata/src", "loc", "Service")
+	if err != nil {
+		t.Fatal(err)
+	}
+	r := r0.locals
+	single := map[string]bool{}
+	for i, g := range r.Groups {
+		single[g] = r.Single[i]
+	}
+	writes := map[string][]string{} // entry -> fields written
+	for _, a := range r.Accesses {
+		if a.Write {
+			writes[a.Entry] = append(writes[a.Entry], a.Field)
+		}
+	}
+	var per, shared string
+	for e := range writes {
+		if strings.Contains(e, "in PerIteration/") {
+			per = e
+		}
+		if strings.Contains(e, "in Shared/") {
+			shared = e
+		}
+	}
+	if per == "" || !single[per] || !strings.HasSuffix(per, "/v1") {
+		t.Errorf("PerIteration: the goroutine is the only one of its iteration's variable: entry %q single=%v (%v)", per, single[per], r.Groups)
+	}
+	for _, f := range writes[per] {
+		if strings.HasPrefix(f, "results@") {
+			t.Errorf("PerIteration: an element assignment of a slice is not a write of the slice: %v", writes[per])
+		}
+	}
+	if shared == "" || single[shared] || !strings.HasSuffix(shared, "/v0") {
+		t.Errorf("Shared: every goroutine of the loop writes the one variable: entry %q single=%v (%v)", shared, single[shared], r.Groups)
+	}
+}
